@@ -24,6 +24,7 @@ import (
 	"net"
 	"os"
 	"os/exec"
+	"runtime"
 	"sort"
 	"strconv"
 	"strings"
@@ -92,6 +93,17 @@ type tcase struct {
 	fstep   int    // -1 = none
 	fkind   string
 	credidx int
+	// fkind == rawresp (op "rawread"): the raw response at step fstep
+	rawPrefix int64
+	rawN      int
+	rawEnd    string // close | silent
+}
+
+func (c tcase) op() string {
+	if c.fkind == saslfake.FRawResp {
+		return "rawread"
+	}
+	return "run"
 }
 
 func verS(v int) string {
@@ -108,6 +120,9 @@ func stepS(v int) string {
 }
 
 func (c tcase) args() string {
+	if c.fkind == saslfake.FRawResp {
+		return fmt.Sprintf("%s %s %s %s %s %s %s", c.path, c.mech, c.cred, stepS(c.fstep), kvfmt.I(c.rawPrefix), kvfmt.I(int64(c.rawN)), c.rawEnd)
+	}
 	return fmt.Sprintf("%s %s %s %s %s %s %s %s", c.path, c.mech, verS(c.hs), verS(c.au), c.cred, stepS(c.fstep), c.fkind, kvfmt.I(int64(c.credidx)))
 }
 
@@ -116,7 +131,7 @@ func parseV(s string) int {
 		return saslfake.Absent
 	}
 	neg := strings.HasPrefix(s, "-")
-	v, err := strconv.ParseInt(strings.TrimPrefix(s, "-"), 16, 32)
+	v, err := strconv.ParseInt(strings.TrimPrefix(s, "-"), 16, 64)
 	if err != nil {
 		panic("bad number " + s)
 	}
@@ -128,6 +143,13 @@ func parseV(s string) int {
 
 func parseCase(s string) tcase {
 	f := strings.Fields(s)
+	if len(f) > 0 && (f[0] == "run" || f[0] == "rawread") {
+		f = f[1:]
+	}
+	if len(f) == 7 {
+		return tcase{path: f[0], mech: f[1], hs: 0, au: saslfake.Absent, cred: f[2], fstep: parseV(f[3]), fkind: saslfake.FRawResp,
+			rawPrefix: int64(parseV(f[4])), rawN: parseV(f[5]), rawEnd: f[6]}
+	}
 	if len(f) != 8 {
 		panic("bad case: " + s)
 	}
@@ -158,7 +180,7 @@ func enumerate(creds []credEntry) (main, side []tcase) {
 					au = 1
 				}
 				for _, cred := range []string{"right", "wrongpw", "nouser"} {
-					main = append(main, tcase{path, mech, hs, au, cred, -1, saslfake.FNone, 0})
+					main = append(main, tcase{path: path, mech: mech, hs: hs, au: au, cred: cred, fstep: -1, fkind: saslfake.FNone, credidx: 0})
 					for step := 0; step < 2+nsteps(mech); step++ {
 						kinds := framedKinds
 						if step >= 2 {
@@ -169,7 +191,7 @@ func enumerate(creds []credEntry) (main, side []tcase) {
 							}
 						}
 						for _, k := range kinds {
-							main = append(main, tcase{path, mech, hs, au, cred, step, k, 0})
+							main = append(main, tcase{path: path, mech: mech, hs: hs, au: au, cred: cred, fstep: step, fkind: k, credidx: 0})
 						}
 					}
 				}
@@ -181,7 +203,7 @@ func enumerate(creds []credEntry) (main, side []tcase) {
 		for _, mech := range []string{"plain", "s256"} {
 			for _, hs := range []int{saslfake.Absent, -1, 0, 1, 3} {
 				for _, au := range []int{saslfake.Absent, 0, 1, 2} {
-					side = append(side, tcase{path, mech, hs, au, "right", -1, saslfake.FNone, 0})
+					side = append(side, tcase{path: path, mech: mech, hs: hs, au: au, cred: "right", fstep: -1, fkind: saslfake.FNone, credidx: 0})
 				}
 			}
 		}
@@ -199,11 +221,42 @@ func enumerate(creds []credEntry) (main, side []tcase) {
 						au = 1
 					}
 					if ce.prohibited {
-						side = append(side, tcase{path, mech, hs, au, "prohib", -1, saslfake.FNone, i})
+						side = append(side, tcase{path: path, mech: mech, hs: hs, au: au, cred: "prohib", fstep: -1, fkind: saslfake.FNone, credidx: i})
 						continue
 					}
-					side = append(side, tcase{path, mech, hs, au, "right", -1, saslfake.FNone, i})
-					side = append(side, tcase{path, mech, hs, au, "wrongpw", -1, saslfake.FNone, i})
+					side = append(side, tcase{path: path, mech: mech, hs: hs, au: au, cred: "right", fstep: -1, fkind: saslfake.FNone, credidx: i})
+					side = append(side, tcase{path: path, mech: mech, hs: hs, au: au, cred: "wrongpw", fstep: -1, fkind: saslfake.FNone, credidx: i})
+				}
+			}
+		}
+	}
+	// the raw (handshake v0) response read: every class of length prefix x 0..3 payload
+	// bytes x {close, silence until the read deadline} x both paths, at each raw step.
+	// PLAIN accepts any payload, so for PLAIN a prefix smaller than the payload (trailing
+	// garbage that would corrupt the first use of the handed-out connection) is left out,
+	// and a complete response is only followed by silence (the broker stays).
+	for _, path := range []string{"d", "t"} {
+		for _, ms := range []struct {
+			mech string
+			step int
+		}{{"plain", 2}, {"s256", 2}, {"s256", 3}} {
+			for n := 0; n <= 3; n++ {
+				seen := map[int64]bool{}
+				for _, pfx := range []int64{0, 1, int64(n), int64(n) + 1, 1 << 16, 1 << 24, 1 << 30, 1<<31 - 1, -1, -(1 << 31)} {
+					if seen[pfx] {
+						continue
+					}
+					seen[pfx] = true
+					if ms.mech == "plain" && pfx >= 0 && pfx < int64(n) {
+						continue
+					}
+					for _, end := range []string{"close", "silent"} {
+						if ms.mech == "plain" && pfx >= 0 && pfx <= int64(n) && end == "close" {
+							continue // accepted by PLAIN: the broker must stay to serve the first use
+						}
+						side = append(side, tcase{path: path, mech: ms.mech, hs: 0, au: saslfake.Absent, cred: "right", fstep: ms.step,
+							fkind: saslfake.FRawResp, rawPrefix: pfx, rawN: n, rawEnd: end})
+					}
 				}
 			}
 		}
@@ -217,6 +270,27 @@ type recConn struct {
 	net.Conn
 	mu     sync.Mutex
 	closed bool
+	capped bool // rawread cases: once the harness armed the read deadline the client cannot clear it
+}
+
+func (r *recConn) SetDeadline(t time.Time) error {
+	if r.isCapped() && t.IsZero() {
+		return r.Conn.SetWriteDeadline(t)
+	}
+	return r.Conn.SetDeadline(t)
+}
+func (r *recConn) SetReadDeadline(t time.Time) error {
+	if r.isCapped() && t.IsZero() {
+		return nil
+	}
+	return r.Conn.SetReadDeadline(t)
+}
+func (r *recConn) isCapped() bool { r.mu.Lock(); defer r.mu.Unlock(); return r.capped }
+func (r *recConn) arm(d time.Duration) {
+	r.mu.Lock()
+	r.capped = true
+	r.mu.Unlock()
+	r.Conn.SetReadDeadline(time.Now().Add(d))
 }
 
 func (r *recConn) Close() error {
@@ -233,6 +307,8 @@ type outcome struct {
 	res   string
 	feats []string
 	notes []string
+	alloc uint64 // runtime.MemStats.TotalAlloc around the dial / round trip
+	recv  int    // bytes of the faulted raw response that were put on the wire
 }
 
 func runCase(c tcase, creds []credEntry, seed int64) outcome {
@@ -288,7 +364,12 @@ func runCase(c tcase, creds []credEntry, seed int64) outcome {
 	}
 
 	script := &saslfake.Script{HsMax: c.hs, AuthMax: c.au, Mechs: []string{"PLAIN", "SCRAM-SHA-256", "SCRAM-SHA-512"},
-		DB: db, SNonce: string(snonce), FaultStep: c.fstep, FaultKind: c.fkind}
+		DB: db, SNonce: string(snonce), FaultStep: c.fstep, FaultKind: c.fkind,
+		RawPrefix: int32(c.rawPrefix), RawPayload: c.rawN, RawEnd: c.rawEnd}
+	if c.fkind == saslfake.FRawResp {
+		o.recv = 4 + c.rawN
+		o.feats = append(o.feats, "end="+c.rawEnd, "payload="+strconv.Itoa(c.rawN), "prefix="+prefixClass(c.rawPrefix, c.rawN))
+	}
 
 	var mu sync.Mutex
 	var journals []*saslfake.Journal
@@ -305,7 +386,9 @@ func runCase(c tcase, creds []credEntry, seed int64) outcome {
 		rc := &recConn{Conn: cli}
 		conns = append(conns, rc)
 		ends = append(ends, srv)
-		journals = append(journals, saslfake.Serve(srv, script))
+		sc := *script
+		sc.OnFault = func() { rc.arm(120 * time.Millisecond) }
+		journals = append(journals, saslfake.Serve(srv, &sc))
 		return rc, nil
 	}
 
@@ -316,6 +399,8 @@ func runCase(c tcase, creds []credEntry, seed int64) outcome {
 	}
 	done := make(chan ret, 1)
 	var transport *kafka.Transport
+	var m0, m1 runtime.MemStats
+	runtime.ReadMemStats(&m0)
 	go func() {
 		ctx, cancel := context.WithTimeout(context.Background(), 6*time.Second)
 		defer cancel()
@@ -350,6 +435,8 @@ func runCase(c tcase, creds []credEntry, seed int64) outcome {
 	var rt ret
 	select {
 	case rt = <-done:
+		runtime.ReadMemStats(&m1)
+		o.alloc = m1.TotalAlloc - m0.TotalAlloc
 	case <-time.After(9 * time.Second):
 		mu.Lock()
 		active = false
@@ -400,6 +487,9 @@ func runCase(c tcase, creds []credEntry, seed int64) outcome {
 		tj = strings.Join(toks, ",")
 	}
 	o.res = fmt.Sprintf("J=%s E=%s C=%s", tj, e, cl)
+	if c.fkind == saslfake.FRawResp {
+		o.res += " K=" + errClass(rt.err, rt.useErr)
+	}
 	// notes (not compared): error class, extra connections
 	switch {
 	case rt.err == nil && rt.useErr != nil:
@@ -438,6 +528,43 @@ func runCase(c tcase, creds []credEntry, seed int64) outcome {
 	return o
 }
 
+// errClass: how the dial / round trip ended, for the raw response cases
+func errClass(err, useErr error) string {
+	var ne net.Error
+	switch {
+	case err == nil && useErr == nil:
+		return "ok"
+	case err == nil:
+		return "use"
+	case errors.Is(err, kafka.SASLAuthenticationFailed):
+		return "eof" // io.EOF is reported as SASLAuthenticationFailed by both authenticateSASL loops
+	case errors.Is(err, io.ErrUnexpectedEOF):
+		return "ueof"
+	case strings.Contains(err.Error(), "invalid SASL authentication response length"):
+		return "proto"
+	case errors.Is(err, os.ErrDeadlineExceeded) || (errors.As(err, &ne) && ne.Timeout()):
+		return "timeout"
+	}
+	return "mech"
+}
+
+// prefixClass names the length prefix relative to the payload that follows
+func prefixClass(p int64, n int) string {
+	switch {
+	case p < 0:
+		return "negative"
+	case p == int64(n):
+		return "exact"
+	case p < int64(n):
+		return "less"
+	case p == int64(n)+1:
+		return "one-more"
+	case p >= 1<<30:
+		return "huge"
+	}
+	return "more"
+}
+
 func clean(s string) string {
 	s = strings.ReplaceAll(s, "\n", " ")
 	s = strings.ReplaceAll(s, "|", "/")
@@ -462,19 +589,20 @@ func child(creds []credEntry, seed int64) {
 		if len(o.feats) > 5 {
 			sort.Strings(o.feats[5:])
 		}
-		fmt.Fprintf(out, "RES %s | %s | %s | %s\n", sp[0], o.res, strings.Join(o.feats, ","), clean(strings.Join(o.notes, "; ")))
+		fmt.Fprintf(out, "RES %s | %s | %s | %s | alloc=%d recv=%d\n", sp[0], o.res, strings.Join(o.feats, ","), clean(strings.Join(o.notes, "; ")), o.alloc, o.recv)
 		out.Flush()
 	}
 }
 
 type result struct {
-	res, feats, notes string
+	res, feats, notes, meas string
 }
 
 func runWorker(self string, seed int64, ids []int, cases []tcase, results []result, wg *sync.WaitGroup) {
 	defer wg.Done()
 	for len(ids) > 0 {
-		cmd := exec.Command(self, "-child", "-seed", strconv.FormatInt(seed, 10))
+		// under an address-space limit, as checks/schema_common.run_dec_child does
+		cmd := exec.Command("sh", "-c", fmt.Sprintf("ulimit -v %d; exec \"$0\" -child -seed %d", *vlimitKB, seed), self)
 		stdin, _ := cmd.StdinPipe()
 		stdout, _ := cmd.StdoutPipe()
 		var stderr strings.Builder
@@ -501,12 +629,12 @@ func runWorker(self string, seed int64, ids []int, cases []tcase, results []resu
 			case strings.HasPrefix(line, "BEGIN "):
 				current, _ = strconv.Atoi(line[6:])
 			case strings.HasPrefix(line, "RES "):
-				p := strings.SplitN(line[4:], " | ", 4)
+				p := strings.SplitN(line[4:], " | ", 5)
 				i, _ := strconv.Atoi(p[0])
-				for len(p) < 4 {
+				for len(p) < 5 {
 					p = append(p, "")
 				}
-				results[i] = result{p[1], p[2], p[3]}
+				results[i] = result{p[1], p[2], p[3], p[4]}
 				current = -1
 				doneN++
 			}
@@ -522,7 +650,10 @@ func runWorker(self string, seed int64, ids []int, cases []tcase, results []resu
 			if len(msg) > 600 {
 				msg = msg[:600]
 			}
-			o := result{res: "PANIC", notes: clean(msg)}
+			o := result{res: "PANIC", notes: clean(msg), meas: "alloc=0 recv=0"}
+			if strings.Contains(stderr.String(), "out of memory") || strings.Contains(stderr.String(), "cannot allocate") {
+				o.res = "OOM"
+			}
 			c := cases[current]
 			o.feats = fmt.Sprintf("path=%s,mech=%s,hs=%s,auth=%s,cred=%s,fault=%s,fstep=%s,crash", c.path, c.mech, verS(c.hs), verS(c.au), c.cred, c.fkind, stepS(c.fstep))
 			results[current] = o
@@ -535,11 +666,14 @@ func runWorker(self string, seed int64, ids []int, cases []tcase, results []resu
 	}
 }
 
+var vlimitKB = new(int64)
+
 func main() {
 	seed := flag.Int64("seed", 1, "PRNG seed")
 	isChild := flag.Bool("child", false, "internal: run cases from stdin")
 	one := flag.String("case", "", "run a single case (the arguments after 'run') in-process and print it")
 	workers := flag.Int("workers", 12, "parallel child processes")
+	flag.Int64Var(vlimitKB, "vlimit", 24000000, "address-space limit of the child processes, KB (ulimit -v)")
 	flag.Int("n", 0, "unused (the enumeration is exhaustive)")
 	flag.Parse()
 
@@ -555,7 +689,7 @@ func main() {
 	if *one != "" {
 		c := parseCase(*one)
 		o := runCase(c, creds, *seed)
-		fmt.Printf("1 run %s | %s | %s\n# %s\n", c.args(), o.res, strings.Join(o.feats, ","), strings.Join(o.notes, "; "))
+		fmt.Printf("1 %s %s | %s | %s | alloc=%d recv=%d\n# %s\n", c.op(), c.args(), o.res, strings.Join(o.feats, ","), o.alloc, o.recv, strings.Join(o.notes, "; "))
 		return
 	}
 
@@ -581,7 +715,7 @@ func main() {
 			part = "side"
 		}
 		r := results[i]
-		fmt.Fprintf(out, "%d run %s | %s | %s,%s\n", i+1, c.args(), r.res, r.feats, part)
+		fmt.Fprintf(out, "%d %s %s | %s | %s,%s | %s\n", i+1, c.op(), c.args(), r.res, r.feats, part, r.meas)
 		if r.notes != "" {
 			fmt.Fprintf(os.Stderr, "NOTE %d %s\n", i+1, r.notes)
 		}
